@@ -16,9 +16,9 @@ echo "== repository tests with the change"; /venv/bin/python -m pytest -q -p no:
 echo "== demo with the change (must exit non-zero)"; $runner "$demo" "$R" >/tmp/mut_demo_mut.log 2>&1; echo "demo_mutant_exit=$?"
 cd ${VERIF_DIR:-/verif}
 for c in "$@"; do
-  VERIF_REPO="$R" ./check "$c" --tier quick >/tmp/mut_check_$c.log 2>&1; rc=$?
-  echo "check $c exit=$rc  $(grep -c '^VIOLATION' /tmp/mut_check_$c.log) violation lines; $(tail -1 /tmp/mut_check_$c.log | cut -c1-160)"
-  grep -m2 'what:' /tmp/mut_check_$c.log | cut -c1-220
+  VERIF_REPO="$R" ./check "$c" --tier quick >/tmp/mut_check_$c.$$.log 2>&1; rc=$?
+  echo "check $c exit=$rc  $(grep -c '^VIOLATION' /tmp/mut_check_$c.$$.log) violation lines; $(tail -1 /tmp/mut_check_$c.$$.log | cut -c1-160)"
+  grep -m2 'what:' /tmp/mut_check_$c.$$.log | cut -c1-220; rm -f /tmp/mut_check_$c.$$.log
 done
 rm -rf ${VERIF_DIR:-/verif}/replays/violations
 git -C "$R" checkout -- .
